@@ -136,6 +136,12 @@ def make_design(rng, n=None, malformed=None, force=None):
             scales.append(pool[j])
             lens.append(rng.choice([1, 2, 2, 3]) if k <= 2 else rng.choice([1, 2]))
             offs.append(0.0)
+    if k and rng.random() < 0.18:
+        # steps of very different magnitude on the non-spatial axes (Hz / b-value like axes next to seconds):
+        # thresholds of the code are absolute, so acceptance must not depend on the scale of the block
+        j = rng.randrange(k)
+        if scales[j] != 0:
+            scales[j] = scales[j] * rng.choice([2.0 ** 18, 2.0 ** 20, 2.0 ** 22, 2.0 ** -10])
     d = {"n": n, "k": k, "space": space, "strict": strict, "shape3": shape3, "A": A.tolist(), "t3": t3.tolist(),
          "tl": tl, "tpos": tpos, "scales": scales, "lens": lens, "offs": offs}
     return _name_design(rng, d, force.get("mode"))
